@@ -196,6 +196,15 @@ def run(ck):
                         ck.dist["sv-vs-dm:complexH=%s" % bool(cplx)] += 1
                         if dev > 2 * bsv:
                             ck.fail("closed:sv-vs-dm", "state-vector and density-matrix propagation disagree beyond the truncation bound", inp, dev, 2 * bsv)
+                        # the entry point for an externally supplied Hamiltonian function (which the package leaves unused: the constant
+                        # Hamiltonian is propagated), with the same refinement: the same evolution
+                        svp_h = StateVectorPropagator(ta, Hamiltonian(data=H.copy()))
+                        svp_h.setDtRefinement(nref)
+                        psit_h = numpy.array(svp_h.propagate(StateVector(data=psi0.copy()), L=L, hfce=(lambda *a_, **k_: None)).data)
+                        dvh_ = float(numpy.abs(psit_h - psit).max())
+                        if dvh_ > 1e-10:
+                            ck.fail("closed:sv:hfce-entry-point", "state-vector propagation through the entry point with a Hamiltonian function (refinement %d) differs from "
+                                    "the ordinary one" % nref, inp, dvh_)
                         nrm = numpy.abs(numpy.linalg.norm(psit, axis=1) - 1.0).max()
                         if nrm > 2 * SY.trunc_bound(xs, L, (nt - 1) * nref) + 1e-9:
                             ck.fail("closed:norm", "state-vector norm not conserved within the bound", inp, float(nrm))
@@ -231,6 +240,41 @@ def run(ck):
                         "the one obtained outside / from the density-matrix propagation", inp, [d1_, d2_])
         except Exception as e:
             ck.fail("raises:svpropagate:in-context", "raised %r" % (e,), inp)
+    # ---- the pure-dephasing object an aggregate builds from the transition widths of its molecules (dimer and trimer), Lorentzian and
+    # Gaussian, with a Lindblad generator in both forms: stored states Hermitian, unit trace, positive --------------------------------------
+    try:
+        from quantarhei import Molecule, Aggregate, energy_units
+        from quantarhei.qm import ElectronicPureDephasing
+        for nm_ in (2, 3):
+            with energy_units("1/cm"):
+                msd = []
+                for k_ in range(nm_):
+                    mo_ = Molecule([0.0, 12000.0 + 150.0 * k_]); mo_.set_transition_width((0, 1), 150.0 + 50.0 * k_); msd.append(mo_)
+                agd = Aggregate(molecules=msd)
+                for k_ in range(nm_ - 1):
+                    agd.set_resonance_coupling(k_, k_ + 1, 120.0 - 40.0 * k_)
+            agd.build()
+            hamd = agd.get_Hamiltonian(); Nd_ = hamd.dim
+            for dtp in ("Lorentzian", "Gaussian"):
+                pdd = ElectronicPureDephasing(agd, dtype=dtp)
+                Kd_ = numpy.zeros((Nd_, Nd_)); Kd_[1, 2] = 1.0
+                sbd = SystemBathInteraction([Operator(data=Kd_)], rates=(1.0 / 500.0,))
+                for as_ops in (True, False):
+                    inp = {"aggregate": "%d molecules, transition widths 150.. 1/cm" % nm_, "dephasing": dtp, "generator_as_operators": as_ops}
+                    ck.case(("electronic-pure-dephasing", nm_, dtp, as_ops), nontrivial=True, kind="lind-deph", L=4, Nref=2, calls=1)
+                    LFd = LindbladForm(hamd, sbd, as_operators=as_ops)
+                    vd_ = numpy.array([0.6, 0.5 + 0.3j, 0.4 - 0.2j, 0.3 + 0.1j][:Nd_]); vd_ = vd_ / numpy.linalg.norm(vd_)
+                    r0d = 0.8 * numpy.outer(vd_, vd_.conj()) + 0.2 * numpy.eye(Nd_) / Nd_
+                    dd_ = numpy.array(ReducedDensityMatrixPropagator(TimeAxis(0.0, 60, 1.0), hamd, RTensor=LFd, PDeph=pdd).propagate(
+                        ReducedDensityMatrix(data=r0d.copy()), Nref=2).data)
+                    herm_ = float(numpy.abs(dd_ - numpy.conj(numpy.transpose(dd_, (0, 2, 1)))).max())
+                    trc_ = float(numpy.abs(numpy.trace(dd_, axis1=1, axis2=2) - 1.0).max())
+                    mine_ = min(float(numpy.linalg.eigvalsh(0.5 * (x_ + x_.conj().T)).min()) for x_ in dd_)
+                    if herm_ > 1e-10 or trc_ > 1e-10 or mine_ < -1e-9:
+                        ck.fail("valid-state:electronic-pure-dephasing", "with the aggregate's own pure-dephasing object the stored states are not Hermitian / of unit trace / "
+                                "positive", inp, [herm_, trc_, mine_])
+    except Exception as e:
+        ck.fail("raises:electronic-pure-dephasing", "raised %r" % (e,), {})
     rwa_cases(ck, qr, numpy, scipy)
     model = ck.drive(DRIVER, lines)
     if model is not None:
